@@ -260,7 +260,13 @@ fn gen_cell(src: &mut Src, st: &MStack, name: &str, lower: &[MCellT], max_size: 
         if lc.metals > metals || lc.size.0 > size.0 || lc.size.1 > size.1 {
             continue;
         }
-        let (ix, iy) = size_quanta(st, metals);
+        let (mut ix, mut iy) = size_quanta(st, metals);
+        // the unrealisable-requests sub-check also places instances off the period grid of the wider layers:
+        // two of them may then share a period (the compiler refuses, or blocks the union of their extents)
+        if LOOSE_CUTS.with(|c| c.get()) && src.prob(1, 3) {
+            ix = 1;
+            iy = 1;
+        }
         if lc.size.0 % ix != 0 || lc.size.1 % iy != 0 {
             continue;
         }
